@@ -255,6 +255,11 @@ def draw_vals(rng, shape, cplx, zeros):
             v[0] = 1.25
         if not np.any(v == 0):
             v[-1] = 0.0
+    if n >= 1 and rng.random() < 0.2:
+        # a tiny but non-zero entry (a displacement in m, a compliance in 1/Pa): it is not part of the "zero structure"
+        i = int(rng.integers(0, n))
+        if v[i] != 0:
+            v[i] = v[i] / abs(v[i]) * 10.0 ** rng.uniform(-14, -8.5)
     if n >= 1 and rng.random() < 0.3:
         # an entry just below a power of two: x0+h lies in the next binade, so (x0+h)-h is not x0 in about half of
         # the cases -- only an exact restore leaves such a state bit-identical
